@@ -26,6 +26,7 @@ import (
 	"net"
 	"os"
 	"strconv"
+	"sync"
 	"time"
 )
 
@@ -72,6 +73,13 @@ type response struct {
 	req           *bfe_http.Request // request for this response
 	wroteHeader   bool              // reply header has been (logically) written
 	wroteContinue bool              // 100 Continue response was written
+
+	// continueMu makes the "100 Continue" line, which the request body
+	// reader writes from whatever goroutine reads the body first, and the
+	// final response exclude each other on the connection's buffer.
+	// noContinue is set once the final response has begun.
+	continueMu sync.Mutex
+	noContinue bool
 
 	w  *bfe_bufio.Writer // buffers output in chunks to chunkWriter
 	cw chunkWriter
@@ -229,6 +237,12 @@ func (w *response) WriteHeader(code int) {
 	}
 	w.wroteHeader = true
 	w.status = code
+
+	// from here on it is too late for "100 Continue"; one that is being
+	// written right now is out once the lock has been taken
+	w.continueMu.Lock()
+	w.noContinue = true
+	w.continueMu.Unlock()
 
 	// if server in graceful shutdown state, signal client that
 	// the connection will be closed after completion of the response
